@@ -18,6 +18,31 @@ CHECKS = {
         technique="exhaustive per-argument enumeration + Hypothesis sampling, round-trip against independent decoder",
         engine="refwire",
     ),
+    "C04": dict(
+        category="fault_enumeration",
+        text="The real UDP/TCP protocol objects run on a virtual-clock asyncio loop against a scripted peer; every fault "
+             "script of length retries+1 <= 3 over the 13-action alphabet of the property (plus TCP connect outcomes) is "
+             "enumerated per transport/keep-alive, deeper scripts and free delays are sampled with Hypothesis. The oracle "
+             "bounds transmissions, connect attempts and completion time and pins the silent-peer schedule exactly. "
+             "'Never hangs' is decidable because an empty ready queue with no timer raises Hang.",
+        design_ref="DESIGN.md section 4, C04; section 3, E2",
+        note="Trusted: vlib/vloop.py transcription of CPython 3.12 selector transport semantics; kernel/DNS/ICMP timing out of scope. "
+             "Delays on a T/16 grid, never exactly T.",
+        technique="exhaustive fault-script enumeration + Hypothesis, on a virtual-clock event loop with in-memory transports",
+        engine="vloop",
+    ),
+    "C05": dict(
+        category="exploration",
+        text="Histories of request outcomes (success, exhausted, rejected, transport errors, close(), new event loop) on one "
+             "protocol object are enumerated to length 2 and sampled to length 8; after each prefix a probe request against a "
+             "silent peer must show exactly retries+1 transmissions spaced exactly one timeout, and a probe answered on its last "
+             "retransmission must succeed. connect()/discover()/search_inverters() are run against a silent peer for a grid of "
+             "(timeout, retries) and every probe they send must obey the given values.",
+        design_ref="DESIGN.md section 4, C05",
+        note="Trusted: vlib/vloop.py; exact comparison of virtual times (all delays are binary fractions).",
+        technique="history enumeration + Hypothesis over request-outcome sequences, virtual clock, exact schedule oracle",
+        engine="vloop",
+    ),
 }
 
 def main():
